@@ -76,7 +76,19 @@ def check(ctx):
             rets = [n for n in walk_no_nested(g) if isinstance(n, ast.Return) and n.value is not None]
             if rets and all('NotImplementedError' in ast.unparse(r.value) for r in rets):
                 continue      # abstract base
-            ok = bool(rets) and all(isinstance(r.value, ast.Call) and ast.unparse(r.value.func).split('.')[-1] in ('CompiledType', 'CompiledOpenTypes')
+            def returned_class(fn, c=c, m=m):
+                """name of the class a returned constructor call builds: Name(..), module.Name(..) or self.<CLASS ATTRIBUTE>(..)"""
+                if isinstance(fn, ast.Attribute) and isinstance(fn.value, ast.Name) and fn.value.id in ('self', 'cls'):
+                    names = set()
+                    for k in [c] + c.subclasses(model):
+                        r_ = k.find_attr(fn.attr)
+                        if r_ is None:
+                            return None
+                        t = r_[0].mod.resolve(r_[1]) if isinstance(r_[1], (ast.Name, ast.Attribute)) else None
+                        names.add(getattr(t, 'name', None))
+                    return names.pop() if len(names) == 1 else None
+                return ast.unparse(fn).split('.')[-1]
+            ok = bool(rets) and all(isinstance(r.value, ast.Call) and returned_class(r.value.func) in ('CompiledType', 'CompiledOpenTypes')
                                     for r in rets)
             ctx.instance('C18.R0', Model.qual(g), 'ok' if ok else 'ANALYSIS', node=g, file=m.rel)
             if not ok:
